@@ -1007,6 +1007,9 @@ class Engine:
             good = "Some" if "Option" in m_.group(1) else "Ok"
             bad = "None" if good == "Some" else "Err"
             d = args[1] if len(args) > 1 else ("app", "Default::default", ())
+            if v[0] == "app" and re.search(r"num::<impl \w+>::checked_sub$|(^|::)checked_sub$", str(v[1])) and len(v[2]) == 2 and (len(args) == 1 or d == ("int", 0)):
+                # `a.checked_sub(b).unwrap_or_default()` / `.unwrap_or(0)` is `a.saturating_sub(b)`
+                return [(("app", "saturating_sub", (v[2][0], v[2][1])), None)]
             kv = self.known_variant(path, v)
             if v[0] == "adt" and v[2] == good:
                 return [(v[3][0], None)]
@@ -1604,7 +1607,7 @@ class Engine:
                 for r, sp in rs:
                     outs.append(dead(sp) if r is None else finish(sp, r))
             return outs
-        m = re.search(r"result::Result::<.*>::(map|map_err|and_then|unwrap_or_else|or_else)(::<.*>)?$", nm)
+        m = re.search(r"result::Result::<.*>::(map|map_err|and_then|unwrap_or_else|or_else|inspect|inspect_err)(::<.*>)?$", nm)
         if m and args:
             meth = m.group(1)
             v = self.deref_val(path, args[0]) if args[0][0] == "ref" else args[0]
@@ -1614,16 +1617,18 @@ class Engine:
             outs = []
             for var, p in variants(v, "Ok", "Err"):
                 x = payload(v, var)
-                passes = (var == "Ok" and meth in ("map", "and_then")) or (var == "Err" and meth in ("map_err", "unwrap_or_else", "or_else"))
+                passes = (var == "Ok" and meth in ("map", "and_then", "inspect")) or (var == "Err" and meth in ("map_err", "unwrap_or_else", "or_else", "inspect_err"))
                 if not passes:
                     outs.append(finish(p, x if meth == "unwrap_or_else" else (v if v[0] == "adt" else ("adt", RES, var, (x,)))))
                     continue
-                rs = self.call_closure(p, bb, f, [x])
+                rs = self.call_closure(p, bb, f, [("ref", ("loc", x, ()), False) if meth in ("inspect", "inspect_err") else x])
                 if rs is None:
                     return None
                 for r, sp in rs:
                     if r is None:
                         outs.append(dead(sp))
+                    elif meth in ("inspect", "inspect_err"):
+                        outs.append(finish(sp, v if v[0] == "adt" else ("adt", RES, var, (x,))))      # (the closure only looks; the result is handed on)
                     elif meth == "map":
                         outs.append(finish(sp, ("adt", RES, "Ok", (r,))))
                     elif meth == "map_err":
